@@ -187,6 +187,9 @@ def representative_fields(ctx, v, R):
 # interpretation
 
 
+OTHER_VALUE = "\x00earlier"  # stands for "a value given earlier that differs from the current one"
+
+
 class ParseSemantics(object):
     def __init__(self, ctx, v):
         self.ctx = ctx
@@ -203,6 +206,11 @@ class ParseSemantics(object):
             self.runs[prior] = self.run(prior)
         self.vector_table = self.extract_vector_level(self.runs["empty"])
         self.field_table = {"empty": self.extract_field_level(self.runs["empty"]), "full": self.extract_field_level(self.runs["full"])}
+
+    def ensure_run(self, prior):
+        if prior not in self.runs:
+            self.runs[prior] = self.run(prior)
+            self.field_table[prior] = self.extract_field_level(self.runs[prior])
 
     # -- one interpretation ------------------------------------------------------------------
     def parse_prefix_of_init(self):
@@ -259,6 +267,18 @@ class ParseSemantics(object):
                 if prior == "full":
                     for k in legal:
                         mobj.set(k, TRUE, Opaque("prior:" + k))
+                elif prior == "same":
+                    # every metric already holds the very value the current field gives it
+                    for k in legal:
+                        tab = {}
+                        for f_ in self.F:
+                            parts_ = f_.split(":")
+                            tab[(f_,)] = parts_[1] if len(parts_) == 2 and parts_[0] == k else OTHER_VALUE
+                        mobj.set(k, TRUE, Fin(("field",), tab))
+                elif prior == "other":
+                    # every metric already holds a value different from any the field can give it
+                    for k in legal:
+                        mobj.set(k, TRUE, Const(OTHER_VALUE))
                 result["map_id"] = mref.id
                 result["before_map"] = mobj.copy()
             else:
@@ -509,7 +529,19 @@ class ParseSemantics(object):
                 return ("unknown", "segment %r not a representative" % seg)
             out = self.field_outcome("empty", seg, r)
             if out[0] == "store" and out[1][0] in present:
+                k_dup, v_dup = out[1]
                 out = self.field_outcome("full", seg, r) or ("unknown", None, None)
+                if out[0] == "unknown":
+                    # the reaction to a repeated metric depends on the value stored earlier
+                    # (setdefault(metric, value) != value, a comparison with the old value, ...)
+                    which = "same" if present[k_dup] == v_dup else "other"
+                    self.ensure_run(which)
+                    out = self.field_outcome(which, seg, r) or ("unknown", None, None)
+                    if out[0] == "nothing" or (out[0] == "store" and which == "same"):
+                        # accepted a second time: the metric keeps / takes a value
+                        if out[0] == "store":
+                            present[out[1][0]] = out[1][1]
+                        continue
                 if out[0] == "store":
                     # stored although the metric is already present: the last occurrence wins
                     present[out[1][0]] = out[1][1]
